@@ -437,6 +437,17 @@ static void task_finish(void *p)
 	give_go(next);
 }
 
+/* Paint the part of the stack the task is going to use, so that "uninitialised" stack bytes have a known,
+ * per-run value: the same plan run with two different patterns must put identical bytes on the wire. */
+static void __attribute__((noinline)) paint_stack(unsigned char fill)
+{
+	volatile unsigned char pad[96 * 1024];
+
+	for (size_t i = 0; i < sizeof(pad); i++)
+		pad[i] = fill;
+	__asm__ volatile("" ::"r"(pad) : "memory");
+}
+
 static void *tramp(void *p)
 {
 	struct sim_task *t = p;
@@ -444,6 +455,7 @@ static void *tramp(void *p)
 
 	tls_task = t;
 	wait_go(t);
+	paint_stack(G.cfg.stack_fill);
 	pthread_cleanup_push(task_finish, t);
 	r = t->fn(t->arg);
 	pthread_cleanup_pop(1);
